@@ -49,6 +49,16 @@ enum Shape {
     Named { name: String, id: u32, flag: bool },
 }
 #[derive(Serialize, Schema)]
+struct EmptyTuple();
+#[derive(Serialize, Schema)]
+struct EmptyNamed {}
+#[derive(Serialize, Schema)]
+enum Cmd {
+    Flush(),
+    Stop {},
+    Go,
+}
+#[derive(Serialize, Schema)]
 struct Outer {
     shapes: Vec<Shape>,
     by_name: BTreeMap<String, Unordered>,
@@ -117,6 +127,14 @@ pub fn run(r: &mut StdRng, out: &mut Vec<String>) {
     emit(out, "Pair", &Pair(r.gen(), "p".into()));
     emit(out, "Wrapper", &Wrapper(r.gen()));
     emit(out, "Marker", &Marker);
+    emit(out, "EmptyTuple", &EmptyTuple());
+    emit(out, "EmptyNamed", &EmptyNamed {});
+    emit(out, "Cmd::Flush", &Cmd::Flush());
+    emit(out, "Cmd::Stop", &Cmd::Stop {});
+    emit(out, "Cmd::Go", &Cmd::Go);
+    emit(out, "Vec<Cmd>", &vec![Cmd::Go, Cmd::Flush(), Cmd::Stop {}]);
+    emit(out, "RangeFrom<u8>", &(3u8..));
+    emit(out, "RangeTo<u16>", &(..7u16));
     emit(out, "Shape::Dot", &Shape::Dot);
     emit(out, "Shape::Circle", &Shape::Circle(r.gen()));
     emit(out, "Shape::Rect", &Shape::Rect { zeta: 1, alpha: 2 });
